@@ -237,6 +237,58 @@ def observe_region(rep, ctx, v, state, obs, chain):
                 f"alignment-level feature r on the view: {first} {what}")
 
 
+def observe_algebra(rep, ctx, v, state, obs, chain):
+    """as_one_span / get_slice(allow_gaps=True) of the row feature and Alignment.with_masked_annotations on the view"""
+    x, y, compl, gap = ctx["x"], ctx["y"], ctx["compl"], ctx["gap"]
+    shown = v.to_dict()
+
+    def detail(extra):
+        return lambda: {
+            "level": "alignment", "mode": ctx["mode"], "rows": {"x": ctx["gx"], "y": ctx["gy"]}, "feature": ctx["feature"],
+            "chain": chain(), "state": state, "view": shown, "expected": obs, **extra,
+        }
+
+    try:
+        got = [g for g in v.get_features(seqid="x", on_alignment=False, allow_partial=True) if g.name == ctx["feature"]["name"]]
+    except Exception:
+        got = []  # reported by observe()
+    if got and obs["pos"]:
+        g = got[0]
+        want = {"x": render_row(x, obs["onerowx"], obs["fcomp"], compl, gap), "y": render_row(y, obs["onerowy"], obs["fcomp"], compl, gap)}
+        for op, fn in (("as_one_span", lambda: g.as_one_span().get_slice().to_dict()), ("get_slice-allow_gaps", lambda: g.get_slice(allow_gaps=True).to_dict())):
+            rep.stats["aln_algebra"] += 1
+            try:
+                sl = fn()
+            except Exception as ex:
+                rep.add(key_of(f"algebra:{op}", state, obs, f"raised-{type(ex).__name__}"), detail({"exception": repr(ex), "expected_slice": want}), f"{op} raised {ex!r}")
+                continue
+            if sl != want:
+                rep.add(key_of(f"algebra:{op}", state, obs, "rows"), detail({"observed_slice": sl, "expected_slice": want}), f"{op} shows {sl}, expected {want}")
+        rep.stats["aln_algebra"] += 1
+        try:
+            pos = I.positions(g.as_one_span())
+            if pos != obs["onepos"]:
+                rep.add(key_of("algebra:as_one_span", state, obs, "pos"), detail({"observed_pos": pos}), f"as_one_span covers {pos}, expected {obs['onepos']}")
+        except Exception as ex:
+            rep.add(key_of("algebra:as_one_span", state, obs, f"raised-{type(ex).__name__}"), detail({"exception": repr(ex)}), f"as_one_span raised {ex!r}")
+    if obs["heldx"] == 0:
+        return
+    for sh in (0, 1):
+        rep.stats["aln_algebra"] += 1
+        want = {
+            "x": "".join("?" if k in obs["maskx"][sh] else c for k, c in enumerate(shown["x"])),
+            "y": "".join("?" if k in obs["masky"][sh] else c for k, c in enumerate(shown["y"])),
+        }
+        op = f"algebra:mask-{'shadow' if sh else 'plain'}"
+        try:
+            m = v.with_masked_annotations("gene", mask_char="?", shadow=bool(sh)).to_dict()
+        except Exception as ex:
+            rep.add(key_of(op, state, obs, f"raised-{type(ex).__name__}"), detail({"exception": repr(ex), "expected_rows": want}), f"with_masked_annotations(shadow={bool(sh)}) raised {ex!r}")
+            continue
+        if m != want:
+            rep.add(key_of(op, state, obs, "rows"), detail({"observed_rows": m, "expected_rows": want}), f"with_masked_annotations(shadow={bool(sh)}) shows {m}, expected {want}")
+
+
 def check_created(rep, ctx, created, state, obs):
     rep.stats["aln_created"] += 1
     pr = I.project(created)
@@ -289,6 +341,9 @@ def check_variant(rep, G, mode, ukey, u):
         rep.stats["states"] += 1
         observe(rep, ctx, o, state, look["obs"], chain_of(fk))
         observe_region(rep, ctx, o, state, look["obs"], chain_of(fk))
+        h = zlib.crc32(f"{ukey}{mode}{fk}algebra".encode()) ^ G["seed"]
+        if G["algebra_rate"] >= 1 or h % 9973 < G["algebra_rate"] * 9973:
+            observe_algebra(rep, ctx, o, state, look["obs"], chain_of(fk))
         for act, args, tk, obs in trans.get(fk, ()):
             tree = tk in looks and tk not in objs
             if not tree:
